@@ -52,6 +52,14 @@ func (f mField) schema() map[string]any {
 		s = map[string]any{"type": "object", "additionalProperties": map[string]any{"type": "integer"}}
 	case "ref":
 		return map[string]any{"$ref": "#/components/schemas/Leaf"}
+	case "byte":
+		s = map[string]any{"type": "string", "format": "byte"}
+	case "uuid":
+		s = map[string]any{"type": "string", "format": "uuid"}
+	case "datetime":
+		s = map[string]any{"type": "string", "format": "date-time"}
+	case "email":
+		s = map[string]any{"type": "string", "format": "email"}
 	case "arrobj": // array of inline objects that allow (typed) additional members
 		s = map[string]any{"type": "array", "items": map[string]any{"type": "object", "required": []string{"name"}, "properties": map[string]any{"name": map[string]any{"type": "string"}},
 			"additionalProperties": map[string]any{"type": "integer", "format": "int64"}}}
@@ -137,6 +145,14 @@ func genMemberValue(rng *rand.Rand, kind string) any {
 		return m
 	case "ref":
 		return map[string]any{"x": mStrings[rng.Intn(len(mStrings))], "y": rng.Intn(10)}
+	case "byte": // base64 text; the empty string is zero bytes
+		return []string{"", "aGk=", "AAEC/v8=", "aGVsbG8gd29ybGQ="}[rng.Intn(4)]
+	case "uuid":
+		return []string{"00000000-0000-0000-0000-000000000000", "123e4567-e89b-12d3-a456-426614174000"}[rng.Intn(2)]
+	case "datetime":
+		return []string{"2020-01-02T03:04:05Z", "1999-12-31T23:59:59.123456789Z", "2024-02-29T10:30:00+02:00"}[rng.Intn(3)]
+	case "email":
+		return []string{"a@b.co", "user.name+tag@example.org"}[rng.Intn(2)]
 	case "arrobj":
 		l := []any{}
 		for i := 0; i < rng.Intn(3); i++ {
@@ -217,6 +233,14 @@ func zeroOf(kind string) any {
 		return []string{}
 	case "map":
 		return map[string]int{}
+	case "byte":
+		return ""
+	case "uuid":
+		return "00000000-0000-0000-0000-000000000000"
+	case "datetime":
+		return "0001-01-01T00:00:00Z"
+	case "email":
+		return "a@b.co"
 	case "arrobj", "arrref":
 		return []any{}
 	case "inlobj":
@@ -310,8 +334,16 @@ func runC07(r *Report, rng *rand.Rand, thorough bool) {
 	if thorough {
 		nSchemas, nInst = 300, 40
 	}
-	kinds := []string{"string", "int", "int64", "double", "bool", "date", "arr", "map", "ref", "arrobj", "inlobj", "arrref", "mapobj"}
+	kinds := []string{"string", "int", "int64", "double", "bool", "date", "arr", "map", "ref", "arrobj", "inlobj", "arrref", "mapobj", "byte", "uuid", "datetime", "email"}
 	var schemas []mSchema
+	// two fixed schemas with one member of EVERY kind: all optional and non-nullable in a plain object, all required
+	for fi, req := range []bool{false, true} {
+		fs := mSchema{Name: fmt.Sprintf("MAll%d", fi)}
+		for j, k := range kinds {
+			fs.Fields = append(fs.Fields, mField{Name: fmt.Sprintf("f%d", j), Required: req, Kind: k})
+		}
+		schemas = append(schemas, fs)
+	}
 	for i := 0; i < nSchemas; i++ {
 		s := mSchema{Name: fmt.Sprintf("M%d", i), Addl: []string{"", "", "any", "string", "int", "array", "object", "map"}[rng.Intn(8)]}
 		n := 1 + rng.Intn(5)
@@ -385,8 +417,10 @@ func runC07(r *Report, rng *rand.Rand, thorough bool) {
 					switch {
 					case f.Required && f.Nullable && rng.Intn(3) == 0:
 						inst[f.Name] = nil
-					case f.Required && k == 0 && zeroOf(f.Kind) != nil:
-						inst[f.Name] = zeroOf(f.Kind) // the first instance of every schema holds zero values in its required members
+					case k <= 1 && zeroOf(f.Kind) != nil && (f.Required || k == 1):
+						// the first instance of every schema holds zero values in its required members, the second one in EVERY
+						// member: an optional member that is present with its zero value ("", 0, false, [], {}) is not absent
+						inst[f.Name] = zeroOf(f.Kind)
 					case f.Required:
 						inst[f.Name] = genMemberValue(rng, f.Kind)
 					case rng.Intn(3) == 0:
@@ -582,5 +616,5 @@ func runC07(r *Report, rng *rand.Rand, thorough bool) {
 	}
 	ccases.WriteTo(r)
 	// ---- number without format is float32 (documented): a value needing more precision is narrowed
-	r.Rule = "object schemas from a grammar (1-5 members: required/optional x nullable x {string, int, int64, double, bool, date, array, map, referenced object, array of inline objects with additional members, inline object with additional members, array of references, map of inline objects with additional members}, some readOnly/writeOnly; additionalProperties absent / true / string / integer / array of integers / object with optional members / map of strings, with 0-3 additional members) x {default, nullable-type, disable-required-readonly-as-pointer}, plus four merged (allOf) types whose members differ in what they allow for unknown members and three union types (oneOf / anyOf / oneOf with an own property) with 64-bit extremes inside the stored member, generated and compiled; valid instances from a schema-directed generator (one instance per schema with zero values in every required member, explicit nulls, absent optionals, empty arrays/maps, 64-bit extremes, float64 edge values, escaped and non-ASCII strings, extra members of the additional type) unmarshalled into the generated type and marshalled again; semantic JSON equality modulo the documented exception (oracle) and the model's re-encoded object (Coq); non-trivial = instance with at least two members"
+	r.Rule = "two fixed object schemas with one member of every kind (all optional / all required) and object schemas from a grammar (1-5 members: required/optional x nullable x {string, int, int64, double, bool, date, byte (incl. the empty string), uuid, date-time, email, array, map, referenced object, array of inline objects with additional members, inline object with additional members, array of references, map of inline objects with additional members}, some readOnly/writeOnly; additionalProperties absent / true / string / integer / array of integers / object with optional members / map of strings, with 0-3 additional members) x {default, nullable-type, disable-required-readonly-as-pointer}, plus four merged (allOf) types whose members differ in what they allow for unknown members and three union types (oneOf / anyOf / oneOf with an own property) with 64-bit extremes inside the stored member, generated and compiled; valid instances from a schema-directed generator (one instance per schema with zero values in every required member and one with zero values in every member, optional ones included, explicit nulls, absent optionals, empty arrays/maps, 64-bit extremes, float64 edge values, escaped and non-ASCII strings, extra members of the additional type) unmarshalled into the generated type and marshalled again; semantic JSON equality modulo the documented exception (oracle) and the model's re-encoded object (Coq); non-trivial = instance with at least two members"
 }
